@@ -8,6 +8,8 @@
 (* against these (MCArgEval), and every generated test input carries its abstract line.  *)
 EXTENDS ArgEval
 
+\* A use with a = 0 is the standard argument --endvalues (handler flag hfEndValues): it ends the value list of the multi-value
+\* argument in front of it and has no other meaning; it may be given any number of times.
 \* A use of a sub-group argument carries one more field: sub = the abstract line (over the sub-group's configuration) given
 \* behind it.  A use of a command-mode argument has the whole remaining text as its single value and must be the last use.
 UsesIdx(line, a) == {k \in 1..Len(line) : line[k].a = a}
@@ -63,7 +65,7 @@ ContainerIntended(arg, vs) ==
                       IF arg.unset THEN ~given /\ ~arg.clear /\ arg.init[k] ELSE given \/ (~arg.clear /\ arg.init[k])]
    ELSE LET base == IF arg.clear THEN <<>> ELSE arg.init
             got == FoldVals(arg, vs, 1, base) IN
-        IF arg.sort /\ ~SortedKind(arg.kind) THEN SortInts(got) ELSE got
+        IF arg.sort /\ ~SortedKind(arg.kind) THEN SortElems(arg.kind, got) ELSE got
 \* number of elements a fixed-size destination would have to hold
 StoredCount(arg, vs) == Len(FoldVals(arg, vs, 1, <<>>))
 \* a duplicate among the values given (or against the previous content) when duplicates are errors
@@ -164,7 +166,7 @@ ArgValid(cfg, line, a, endr) ==
 
 \* requires/excludes in their documented, order-sensitive sense
 ConstraintsOK(cfg, line, endr) ==
-   \A k \in 1..Len(line) :
+   \A k \in {j \in 1..Len(line) : line[j].a # 0} :
       LET arg == cfg.args[line[k].a] IN
       /\ endr => \A j \in SeqToSet(arg.req) : \E m \in (k+1)..Len(line) : line[m].a = j
       /\ \A j \in SeqToSet(arg.exc) : \A m \in (k+1)..Len(line) : line[m].a # j
@@ -186,13 +188,14 @@ HConsOpen(cfg, line, h) ==
    \/ h.k = "allOf" /\ \A a \in S : ~Used(line, a)
    \/ h.k \in {"anyOf", "oneOf"} /\ \E a \in S : Cardinality(UsesIdx(line, a)) > 1
 ValidX(cfg, line, endr) ==
+   /\ \A k \in 1..Len(line) : line[k].a = 0 => cfg.endvalues              \* --endvalues exists only when the handler defines it
    /\ \A a \in 1..NArgs(cfg) : ArgValid(cfg, line, a, endr)
    /\ ConstraintsOK(cfg, line, endr)
    /\ \A k \in 1..Len(cfg.hcons) : HConsOK(cfg, line, cfg.hcons[k], endr)
 Valid(cfg, line) == ValidX(cfg, line, TRUE)
 
 \* a command-mode argument given without anything behind its key: empty value or missing value?  not documented
-CmdOpen(cfg, line) == \E k \in 1..Len(line) : IsCmd(cfg.args[line[k].a]) /\ Len(line[k].vals) = 0
+CmdOpen(cfg, line) == \E k \in 1..Len(line) : line[k].a # 0 /\ IsCmd(cfg.args[line[k].a]) /\ Len(line[k].vals) = 0
 RECURSIVE Open(_, _)
 Open(cfg, line) == \/ \E k \in 1..Len(cfg.hcons) : HConsOpen(cfg, line, cfg.hcons[k])
                    \/ \E a \in 1..NArgs(cfg) : cfg.args[a].kind = "valint" /\ ValArgOpen(cfg, line, a)
@@ -214,7 +217,7 @@ JoinSep(vs, sep) == LET F[k \in 0..Len(vs)] == IF k = 0 THEN <<>> ELSE IF k = 1 
 \* unambiguous proper prefixes (length >= 2) of the long key of argument a that are not themselves a key
 Abbrevs(cfg, a) ==
    IF ~cfg.abbr THEN {}
-   ELSE {p \in {SubSeq(cfg.args[a].l, 1, n) : n \in 2..(Len(cfg.args[a].l) - 1)} :
+   ELSE {p \in {SubSeq(LongKeyOf(cfg, a), 1, n) : n \in 2..(Len(LongKeyOf(cfg, a)) - 1)} :
             /\ ExactLong(cfg, p) = {}
             /\ PrefixLong(cfg, p) = {a}}
 NextWordOK(v) == ~(Len(v) > 0 /\ v[1] = Dash) /\ ~(Len(v) = 1 /\ v[1] \in CtrlChars)
@@ -243,6 +246,8 @@ TakenBySub(sc, w, freeval) ==
 RECURSIVE SpellFrom(_, _, _)
 RECURSIVE Spellings(_, _)
 SpellUse(cfg, u) ==
+   \* --endvalues: the full key or an unambiguous abbreviation, never with a value
+   IF u.a = 0 THEN {<<<<Dash, Dash>> \o w>> : w \in {EndValuesKey} \cup Abbrevs(cfg, EndValuesIdx(cfg))} ELSE
    LET arg == cfg.args[u.a]
        shortK == IF arg.s # 0 THEN {<<Dash, arg.s>>} ELSE {}
        longK == IF Len(arg.l) > 0 THEN {<<Dash, Dash>> \o w : w \in {arg.l} \cup Abbrevs(cfg, u.a)} ELSE {}
@@ -258,8 +263,9 @@ SpellUse(cfg, u) ==
         ELSE IF ~CmdTextOK(u.vals[1]) THEN {}
         ELSE IF arg.pos THEN (IF NextWordOK(CmdWords(u.vals[1])[1]) THEN {CmdWords(u.vals[1])} ELSE {})
         ELSE {<<k>> \o CmdWords(u.vals[1]) : k \in shortK \cup longK}
+   \* (an empty word as positional value is kept out: nothing says whether it is a value at all)
    ELSE IF arg.pos THEN LET pv == IF IsContainer(arg.kind) THEN JoinSep(u.vals, arg.sep) ELSE u.vals[1] IN
-                   IF NextWordOK(pv) THEN {<<pv>>} ELSE {}
+                   IF NextWordOK(pv) /\ Len(pv) > 0 THEN {<<pv>>} ELSE {}
    ELSE IF Len(u.vals) = 0 THEN {<<k>> : k \in shortK \cup longK}
    ELSE LET v == IF IsContainer(arg.kind) THEN JoinSep(u.vals, arg.sep) ELSE u.vals[1] IN
         {<<k, v>> : k \in {x \in shortK \cup longK : NextWordOK(v)}}
@@ -268,19 +274,20 @@ SpellUse(cfg, u) ==
 \* all concatenations of one form per use, in line order
 \* a positional value directly behind a multi-value argument (it would be one more of its values) or behind an
 \* optional-mode argument used without value (it would be its value) has no legal spelling at that place
+\* (behind --endvalues it is legal again: that is what the marker is for)
 PosPlaceOK(cfg, line, k) ==
-   ~cfg.args[line[k].a].pos \/ k = 1
+   line[k].a = 0 \/ ~cfg.args[line[k].a].pos \/ k = 1 \/ line[k-1].a = 0
    \/ LET prev == cfg.args[line[k-1].a] IN
       ~prev.multi /\ ~(prev.vm = "opt" /\ Len(line[k-1].vals) = 0)
 \* nothing can follow a command-mode argument (it would be part of its value)
-CmdPlaceOK(cfg, line, k) == k = 1 \/ ~IsCmd(cfg.args[line[k-1].a])
+CmdPlaceOK(cfg, line, k) == k = 1 \/ line[k-1].a = 0 \/ ~IsCmd(cfg.args[line[k-1].a])
 \* behind a sub-group the first word of the next use must be one the sub-group's handler does not take
 AfterSubOK(cfg, line, k, ws) ==
-   k = 1 \/ ~IsSub(cfg.args[line[k-1].a]) \/ Len(ws) = 0
+   k = 1 \/ line[k-1].a = 0 \/ ~IsSub(cfg.args[line[k-1].a]) \/ Len(ws) = 0
    \/ LET sc == cfg.args[line[k-1].a].sub
           L == line[k-1].sub
           lastu == L[Len(L)]
-          freeval == Len(L) > 0 /\ (sc.args[lastu.a].multi \/ (sc.args[lastu.a].vm = "opt" /\ Len(lastu.vals) = 0)) IN
+          freeval == Len(L) > 0 /\ lastu.a # 0 /\ (sc.args[lastu.a].multi \/ (sc.args[lastu.a].vm = "opt" /\ Len(lastu.vals) = 0)) IN
       ~TakenBySub(sc, ws[1], freeval)
 SpellFrom(cfg, line, k) ==
    IF k > Len(line) THEN {<<>>}
@@ -289,7 +296,7 @@ SpellFrom(cfg, line, k) ==
 \* a command-mode use (the last one) is spelled as it is: what stands behind it is text, not keys that could be grouped
 Spellings(cfg, line) ==
    LET n == Len(line)
-       hasCmd == n > 0 /\ IsCmd(cfg.args[line[n].a])
+       hasCmd == n > 0 /\ line[n].a # 0 /\ IsCmd(cfg.args[line[n].a])
        head == IF hasCmd THEN SubSeq(line, 1, n - 1) ELSE line
        base == SpellFrom(cfg, head, 1)
        m1 == UNION {Merges(cfg, ws) : ws \in base}
